@@ -1202,4 +1202,115 @@ theorem x509New_encCert (k : CertKind) (c : CertSpec) (idn sdn : DnAttrs) (s : L
   rfl
 
 
+/-! ## CSR -/
+
+theorem run_csrInfo {fuel : Nat} {subject pk attrs rest : List Nat} (hl : pk.length = P256_PUBLIC_KEY_LEN)
+    (hh : pk.head? = some 0x04) :
+    Run (dCsrInfo (fuel + 1)) (encCsrInfo subject pk attrs ++ rest) (fun key => key.bytes = pk ∧ key.unused = 0) rest := by
+  unfold dCsrInfo encCsrInfo
+  refine Run.bind (run_headerOf tagOfByte_seq) (fun n hn => ?_)
+  subst hn
+  refine run_nested rfl ?_
+  simp only [List.append_assoc]
+  refine Run.bind (run_uintRef_small (by omega)) (fun _ _ => ?_)
+  refine Run.bind (run_any tagOfByte_seq) (fun _ _ => ?_)
+  refine Run.bind (run_spki hl hh) (fun x hx => ?_)
+  obtain ⟨params, key⟩ := x
+  simp only at hx
+  have hattr := run_ctxImplicitAny (t := 0xA0) (v := attrs) (rest := []) tagOfByte_a0
+  simp only [List.append_nil] at hattr
+  refine Run.bind (run_ctxWith_hit (t := 0xA0) (by simp [encTlv]) tagOfByte_a0 (by decide) (by decide) hattr) (fun o ho => ?_)
+  obtain ⟨a, rfl, _⟩ := ho
+  exact Run.pure ⟨hx.2.1, hx.2.2⟩
+
+theorem run_csr {fuel : Nat} {subject pk attrs r s : List Nat} (hl : pk.length = P256_PUBLIC_KEY_LEN)
+    (hh : pk.head? = some 0x04) :
+    Run (dCsr (fuel + 1)) (encCsr subject pk attrs r s)
+      (fun x => x.1.bytes = pk ∧ x.2.bytes = encSig r s) [] := by
+  unfold dCsr encCsr
+  refine Run.of_append_nil ?_
+  refine Run.bind (run_headerOf tagOfByte_seq) (fun n hn => ?_)
+  subst hn
+  refine run_nested rfl ?_
+  simp only [List.append_assoc]
+  refine Run.bind (run_csrInfo hl hh) (fun key hkey => ?_)
+  refine Run.bind (run_algId oidValid_consts.2.2.1) (fun x hx => ?_)
+  subst hx
+  simp only [ne_eq, not_true_eq_false, if_false]
+  have hsig := run_bitString (unused := 0) (bytes := encSig r s) (rest := []) (by omega) (fun h => absurd rfl h)
+  simp only [List.append_nil] at hsig
+  refine Run.bind hsig (fun sig hsig => ?_)
+  exact Run.pure ⟨hkey.1, hsig.2⟩
+
+theorem dPosition_run (r : Rdr) : dPosition r = .ok (r.position, r) := rfl
+
+/-- the second pass of `CsrRef::new` on the encoder's output: the signed range is the `certificationRequestInfo` element -/
+theorem csrInfoRange_enc {fuel : Nat} {subject pk attrs r s : List Nat} (hl : pk.length = P256_PUBLIC_KEY_LEN)
+    (hh : pk.head? = some 0x04) (hlen : (encCsr subject pk attrs r s).length ≤ MAX_LEN) :
+    ∃ start stop, runNew (encCsr subject pk attrs r s) (dCsrInfoRange (fuel + 1)) = .ok (start, stop) ∧
+      start ≤ stop ∧ stop ≤ (encCsr subject pk attrs r s).length ∧
+      ((encCsr subject pk attrs r s).drop start).take (stop - start) = encCsrInfo subject pk attrs := by
+  -- the pieces of the encoding
+  let info := encCsrInfo subject pk attrs
+  let tail := encAlgId OID_ECDSA_WITH_SHA256 ++ encBitString 0 (encSig r s)
+  let hdr := TAG_SEQUENCE :: encLen (info ++ tail).length
+  have hder : encCsr subject pk attrs r s = hdr ++ (info ++ tail) := by
+    simp [encCsr, encTlv, hdr, info, tail, List.append_assoc]
+  have hx0 : NextX (.slice (encCsr subject pk attrs r s) 0) (encTlv TAG_SEQUENCE (info ++ tail) ++ []) := by
+    have := NextX.ofSlice hlen
+    simpa [encCsr, info, tail, List.append_assoc] using this
+  -- header
+  obtain ⟨x, pre1, hq1, hl1, hrun1⟩ := run_header (tag := TAG_SEQUENCE) (v := info ++ tail) (rest := []) tagOfByte_seq _ hx0
+  subst hq1
+  have hpre1 : pre1 = hdr := by
+    have : encTlv TAG_SEQUENCE (info ++ tail) ++ [] = hdr ++ (info ++ tail ++ []) := by simp [encTlv, hdr]
+    rw [this] at hl1
+    exact (List.append_cancel_right hl1).symm
+  subst hpre1
+  have hx1 : NextX ((Rdr.slice (encCsr subject pk attrs r s) 0).adv hdr.length) (info ++ tail ++ []) := by
+    have : encTlv TAG_SEQUENCE (info ++ tail) ++ [] = hdr ++ (info ++ tail ++ []) := by simp [encTlv, hdr]
+    rw [this] at hx0
+    exact hx0.adv
+  -- certificationRequestInfo
+  have hx1' : NextX ((Rdr.slice (encCsr subject pk attrs r s) 0).adv hdr.length) (info ++ tail) := by simpa using hx1
+  obtain ⟨key, pre2, _, hl2, hrun2⟩ := run_csrInfo (fuel := fuel) (subject := subject) (attrs := attrs) (rest := tail) hl hh _ hx1'
+  have hpre2 : pre2 = info := (List.append_cancel_right hl2).symm
+  subst hpre2
+  refine ⟨hdr.length, hdr.length + info.length, ?_, by omega, ?_, ?_⟩
+  · unfold runNew Rdr.new
+    rw [lenNew_of_le hlen]
+    simp only [Bind.bind, Except.bind, Pure.pure, Except.pure]
+    unfold dCsrInfoRange
+    simp only [Dec.bind_run, hrun1, dPosition_run, hrun2, Dec.pure_run]
+    simp only [Rdr.adv, Rdr.position, Nat.zero_add]
+  · rw [hder]; simp only [List.length_append]; omega
+  · rw [hder]
+    simp [List.drop_append, List.take_append]
+    rfl
+
+/-- **CSR round trip**: `CsrRef::new` of the PKCS#10 request built from a subject, an uncompressed P-256 key, an
+attribute set and a signature `(r, s)` hands out the key, the `certificationRequestInfo` element as the signed range and
+the raw signature `r ‖ s`; whether the signature verifies is decided by the (symbolic) crypto backend on exactly these. -/
+theorem csrNew_encCsr {subject pk attrs r s : List Nat} (hl : pk.length = P256_PUBLIC_KEY_LEN) (hh : pk.head? = some 0x04)
+    (hr : Canon 32 r) (hs : Canon 32 s) (hlen : (encCsr subject pk attrs r s).length ≤ MAX_LEN) :
+    ∃ c, csrNew (encCsr subject pk attrs r s) = .ok c ∧ c.pk.1 = pk ∧
+      ((encCsr subject pk attrs r s).drop c.tbsStart).take (c.tbsEnd - c.tbsStart) = encCsrInfo subject pk attrs ∧
+      c.sig = .ok (padLeft 32 r ++ padLeft 32 s) := by
+  have hpos : 1 ≤ (encCsr subject pk attrs r s).length := by simp [encCsr, encTlv]
+  have hfuel : (encCsr subject pk attrs r s).length + 1 = ((encCsr subject pk attrs r s).length - 1 + 1) + 1 := by omega
+  obtain ⟨x, hx, hder⟩ := fromDer_of_run (run_csr (fuel := (encCsr subject pk attrs r s).length - 1 + 1)
+    (subject := subject) (attrs := attrs) (r := r) (s := s) hl hh) hlen
+  obtain ⟨key, sig⟩ := x
+  simp only at hx
+  obtain ⟨start, stop, hrange, h1, h2, h3⟩ := csrInfoRange_enc (fuel := (encCsr subject pk attrs r s).length - 1 + 1)
+    (subject := subject) (attrs := attrs) (r := r) (s := s) hl hh hlen
+  refine ⟨{ pk := (key.bytes, key.off), tbsStart := start, tbsEnd := stop, sig := ecdsaDerToRaw sig.bytes }, ?_, hx.1, h3, ?_⟩
+  · unfold csrNew
+    rw [hfuel, hder, hrange]
+    simp only [mapInvalidData]
+    rw [if_pos ⟨h1, h2⟩]
+  · simp only [hx.2]
+    exact ecdsaDerToRaw_encSig hr hs
+
+
 end Codec.DerRd
